@@ -265,7 +265,9 @@ var c03Atoms = []func() *gen.Node{
 	func() *gen.Node { return &gen.Node{K: gen.KArr, Kids: []*gen.Node{gen.Id("q"), gen.Num("1")}} },
 	func() *gen.Node { return &gen.Node{K: gen.KObj} },
 	func() *gen.Node { return &gen.Node{K: gen.KObj, Kids: []*gen.Node{gen.Id("k"), gen.Num("1")}} },
-	func() *gen.Node { return &gen.Node{K: gen.KFunc, Params: []string{"x"}, Kids: []*gen.Node{{K: gen.KReturn, Kids: []*gen.Node{gen.Id("x")}}}} },
+	func() *gen.Node {
+		return &gen.Node{K: gen.KFunc, Params: []string{"x"}, Kids: []*gen.Node{{K: gen.KReturn, Kids: []*gen.Node{gen.Id("x")}}}}
+	},
 	func() *gen.Node { return &gen.Node{K: gen.KFunc, Name: "g"} },
 	func() *gen.Node { return &gen.Node{K: gen.KBool, Name: "true"} },
 	func() *gen.Node { return &gen.Node{K: gen.KBool, Name: "false"} },
